@@ -8,6 +8,7 @@ RULE = ("ops: mk (constructor, ints around 0 / 2^11 / 2^29 / 2^31 / 2^32 incl. n
         "out-of-field ones that must be masked); frompgn; resolve (CanMatrix.decode in matrices mixing 11-bit and J1939 frames in "
         "any order, several source addresses per PGN, received id with other priority/source/destination). quick: all 2^11 standard "
         "ids for mk/compound + each field swept exhaustively with the others at boundary/random values + random; thorough: 10^6 more. "
+        "Received identifiers include 29-bit ones with the number of an 11-bit frame of the matrix. "
         "Non-trivial = distinct case other than the zero identifier.")
 EXHAUSTIVE = {"quick": False, "thorough": False}
 PARTIAL = ["the payload decoding after frame resolution is C01's; here only which frame is chosen is compared"]
@@ -110,7 +111,11 @@ def resolve_case(rng):
         frames.append(["fj", compose(3, 0, 0, 254, 17, 5), True, True])
     rng.shuffle(frames)
     c = rng.random()
-    if c < 0.55:
+    std = [f for f in frames if not f[2]]
+    if std and rng.random() < 0.15:
+        # a received 29-bit identifier with the number of an 11-bit frame of the matrix is another identifier
+        k = [rng.choice(std)[1], True]
+    elif c < 0.55:
         edp, dp, pf, ps = rng.choice(pgns)
         k = [compose(rng.randrange(8), edp, dp, pf, ps if pf >= 240 else rng.randrange(256), rng.randrange(256)), True]
     elif c < 0.75:
